@@ -1,5 +1,6 @@
 import N0Verif.Proofs.XPathDelete
 import N0Verif.Proofs.XPathDeleteRec
+import N0Verif.Proofs.XPathSpellings
 import N0Verif.Props.C01
 /-!
 # C05 — delete and pop remove exactly the addressed node
@@ -156,6 +157,44 @@ theorem C05_pop_hit_recursive (cls : Cls) (kvs : List (Str × Val)) (p : Pos) (c
   rw [hget']
   simp only [hdel]
 
+/-! ### every spelling lookup accepts, at the string level -/
+
+/-- **C05 (delete, every spelling).**  Whatever spelling of the path of an existing node is used
+(`renderSp`: prefix none, `/` or `//`; `a[i][j]`, `a[i]/[j]` or `a/[i]/[j]`; each index as `i`,
+`-k`, `last()`, `last()-k` or `i+j`), `delete` removes exactly the node plain Python indexing
+reaches (`posOf`), and with `recursively=True` additionally the emptied dictionary ancestors. -/
+theorem C05_delete_spellings (cls : Cls) (kvs : List (Str × Val)) (lead : Lead) (steps : List StepSp)
+    (c : Val) (hp : PlainSteps steps) (hne : steps ≠ [])
+    (hget : stepsGet (.dict cls kvs) steps = some c) (fuel : Nat) (hf : fuel ≥ 2 * steps.length) :
+    let t := Val.dict cls kvs
+    let p := posOf t steps
+    ∃ t', delAt t p = some t' ∧
+      delete fuel t (renderSp lead steps) false = (t', .ok ()) ∧
+      delete fuel t (renderSp lead steps) true = (pruneUp t' p.dropLast (p.length - 1), .ok ()) := by
+  intro t p
+  have hs := spells_steps steps t c hp hget
+  have hpne : p ≠ [] := spells_pos_ne_nil hs (toksOf_ne_nil steps hne)
+  obtain ⟨t', ht'⟩ := delAt_isSome p t c hpne hs.getAt
+  refine ⟨t', ht', ?_, ?_⟩
+  · simpa using delete_spelling fuel cls kvs lead steps c t' false hp hne hget ht' hf
+  · simpa using delete_spelling fuel cls kvs lead steps c t' true hp hne hget ht' hf
+
+/-- **C05 (pop, every spelling).** -/
+theorem C05_pop_spellings (cls : Cls) (kvs : List (Str × Val)) (lead : Lead) (steps : List StepSp)
+    (c d : Val) (hp : PlainSteps steps) (hne : steps ≠ [])
+    (hget : stepsGet (.dict cls kvs) steps = some c) (fuel : Nat) (hf : fuel ≥ 2 * steps.length) :
+    let t := Val.dict cls kvs
+    let p := posOf t steps
+    ∃ t', delAt t p = some t' ∧
+      pop fuel t (renderSp lead steps) d false = .ok (t', c) ∧
+      pop fuel t (renderSp lead steps) d true = .ok (pruneUp t' p.dropLast (p.length - 1), c) := by
+  intro t p
+  obtain ⟨t', ht', h1, h2⟩ := C05_delete_spellings cls kvs lead steps c hp hne hget fuel hf
+  have hgi := (N0.C01.C01_spellings_string cls kvs lead steps c d hp hne hget fuel hf).1
+  refine ⟨t', ht', ?_, ?_⟩
+  · unfold pop; rw [hgi]; simp only [h1]
+  · unfold pop; rw [hgi]; simp only [h2]; rfl
+
 /-! ### frame: what `delAt` leaves alone -/
 
 /-- **frame (dict entry).**  Removing the entry `k` of the dictionary at `q` changes no position
@@ -220,5 +259,15 @@ example : Diverge ([.key ['a']] ++ [.key ['b']]) [.key ['k']] := by simp [Diverg
 example : delAt exTree ([.key ['a'], .key ['b'], .idx 1] ++ [.idx 0]) =
     some (.dict .n0 [(['a'], .dict .plain [(['b'], .list .plain [.int 1, .list .n0 [.none]])]), (['k'], .bool true)]) := by
   decide
+
+
+-- a spelling: `//a/b/[last()]/c` addresses `/a/b[0]/c` of `exRec`
+example : renderSp .two [.key ['a'], .key ['b'], .idx .last true, .key ['c']] =
+    ['/', '/', 'a', '/', 'b', '/', '[', 'l', 'a', 's', 't', '(', ')', ']', '/', 'c'] ∧
+    stepsGet exRec [.key ['a'], .key ['b'], .idx .last true, .key ['c']] = some (.int 1) ∧
+    posOf exRec [.key ['a'], .key ['b'], .idx .last true, .key ['c']] = [.key ['a'], .key ['b'], .idx 0, .key ['c']] := by
+  decide
+example : delete 20 exRec (renderSp .two [.key ['a'], .key ['b'], .idx .last true, .key ['c']]) true =
+    (.dict .n0 [(['a'], .dict .plain [(['b'], .list .plain [])]), (['k'], .bool true)], .ok ()) := by decide
 
 end N0.C05
